@@ -157,7 +157,7 @@ func (e *evidence) write(sc *scratch, wall time.Duration) error {
 	if err != nil {
 		return err
 	}
-	dir := filepath.Join(verifDir(), "evidence")
+	dir := evidenceDir()
 	os.MkdirAll(dir, 0o755)
 	return os.WriteFile(filepath.Join(dir, e.prop+".json"), b, 0o644)
 }
